@@ -142,8 +142,10 @@ def check(ctx):
     # the last-write-wins register.  It subsumes the structural clauses L / B / X / D / R for the two mutators, which are
     # only evaluated when the code uses a construct the abstract interpreter does not model.
     if orswot_abs.check_mutators(ctx, facts, 'C04.SEM'):
-        n = lww.check_bodies(ctx, facts, 'C04.L', [stamp], 'stamp update')
-        ctx.floor('C04.L', 'survivor guards in the per-source stamp update', n, 1)
+        import versions_abs
+        if not versions_abs.check_versions(ctx, facts, 'C04.VSEM'):
+            n = lww.check_bodies(ctx, facts, 'C04.L', [stamp], 'stamp update')
+            ctx.floor('C04.L', 'survivor guards in the per-source stamp update', n, 1)
     else:
         n = lww.check_bodies(ctx, facts, 'C04.L', roots, 'mutators')
         ctx.floor('C04.L', 'survivor guards in the mutators', n, 5)
